@@ -373,7 +373,8 @@ class ProtoGen:
             if rng.random() < 0.7:
                 entries.append(("offset", str(rng.choice((0, 64, 4096, rng.randint(1, 10**6))))))
             if rng.random() < 0.7:
-                entries.append(("length", str(max(1, (n * max(bits, 1) + 7) // 8))))
+                # an empty tensor legitimately records length 0 (onnx.save_model with external data does)
+                entries.append(("length", str((n * max(bits, 1) + 7) // 8)))
             if self.on("shuffled_keyed_lists", 0.5):
                 rng.shuffle(entries)
             for k, v in entries:
